@@ -328,8 +328,10 @@ func init() {
 	All["C17"].Run = func(c *an.Ctx) {
 		old(c)
 		c17fileBoundary(c)
+		c17noAliasedCompaction(c)
 	}
-	All["C17"].Rules += " R6"
+	All["C17"].Rules += " R6 R7"
+	addLevel("C17", "the file list of the entry log is never compacted in place (append(x[:0], x[k:]...)) while a sub-slice of it taken before is still used: the files to delete would be the surviving ones.")
 }
 
 // c17fileBoundary — C17.R6.  The entry log is a list of files; slotGe maps a raft index to
@@ -357,4 +359,93 @@ func c17fileBoundary(c *an.Ctx) {
 		return
 	}
 	f.Guarded(r, rets, "slot 0 of file i exactly when raftIndex == files[i].firstIndex()", an.AtomLike(`^p0==recv\.files\[local\(\w+\)\]\.firstIndex\(\)$`, true))
+}
+
+// c17noAliasedCompaction — C17.R7.  `before := l.files[:k]; l.files = append(l.files[:0], l.files[k:]...)`
+// shifts the survivors to the front of the SAME array `before` points into: `before` now names
+// the surviving files.  Closing and deleting "the files before the index" then removes the file
+// that holds the index and leaves the obsolete one on disk.
+func c17noAliasedCompaction(c *an.Ctx) {
+	const RL = "lib/raftlog"
+	r := c.Rule("C17.R7", "K-IDIOM", RL+": no in-place compaction of a slice while a sub-slice of it taken earlier is used afterwards")
+	n := 0
+	for _, d := range c.P.AllDecls() {
+		if !an.InPkg(d, RL) {
+			continue
+		}
+		n++
+		info := d.Pkg.TypesInfo
+		type alias struct {
+			v    types.Object
+			of   string
+			node ast.Node
+		}
+		var aliases []alias
+		ast.Inspect(d.Decl.Body, func(m ast.Node) bool {
+			as, ok := m.(*ast.AssignStmt)
+			if !ok || len(as.Lhs) != len(as.Rhs) {
+				return true
+			}
+			for i, rhs := range as.Rhs {
+				se, ok := ast.Unparen(rhs).(*ast.SliceExpr)
+				if !ok {
+					continue
+				}
+				id, ok := as.Lhs[i].(*ast.Ident)
+				if !ok {
+					continue
+				}
+				o := info.Defs[id]
+				if o == nil {
+					o = info.Uses[id]
+				}
+				if o != nil && types.ExprString(as.Lhs[i]) != types.ExprString(se.X) {
+					aliases = append(aliases, alias{o, types.ExprString(se.X), as})
+				}
+			}
+			return true
+		})
+		if len(aliases) == 0 {
+			continue
+		}
+		ast.Inspect(d.Decl.Body, func(m ast.Node) bool {
+			as, ok := m.(*ast.AssignStmt)
+			if !ok || len(as.Lhs) != 1 || len(as.Rhs) != 1 {
+				return true
+			}
+			ce, ok := ast.Unparen(as.Rhs[0]).(*ast.CallExpr)
+			if !ok || len(ce.Args) < 1 {
+				return true
+			}
+			if id, ok := ce.Fun.(*ast.Ident); !ok || id.Name != "append" {
+				return true
+			}
+			first, ok := ast.Unparen(ce.Args[0]).(*ast.SliceExpr)
+			if !ok || first.High == nil || types.ExprString(first.High) != "0" {
+				return true
+			}
+			x := types.ExprString(first.X)
+			if types.ExprString(as.Lhs[0]) != x {
+				return true
+			}
+			for _, a := range aliases {
+				if a.of != x || a.node.Pos() > as.Pos() {
+					continue
+				}
+				usedAfter := false
+				ast.Inspect(d.Decl.Body, func(k ast.Node) bool {
+					if id, ok := k.(*ast.Ident); ok && info.Uses[id] == a.v && id.Pos() > as.End() {
+						usedAfter = true
+					}
+					return true
+				})
+				if usedAfter {
+					r.Fail(d.Name()+": compaction under a live sub-slice", c.P.Pos(as.Pos()), "%s compacts %s in place while %s (a sub-slice of it taken before) is still used afterwards: the sub-slice now names the surviving elements", d.Name(), x, a.v.Name())
+				}
+			}
+			return true
+		})
+	}
+	r.AddSites(n)
+	r.Floor(50, "functions of lib/raftlog scanned")
 }
